@@ -158,12 +158,23 @@ def r1_plumbing(ctx, rep):
            f"initial child default is {vt} in a type and {vn} elsewhere", py.nloc(cs.loop))
     sub = [e for e in pev if e.kind == "assign" and e.target == "self.permission" and any("FortranSubmodule" in c and not c.startswith("not") for c in e.cond_texts())]
     ok = bool(sub) and ast.unparse(sub[0].value).replace('"', "'") == "'private'"
+    if not sub:
+        # ... or the submodule says so itself while it reads its own statement: `_initialize` runs from FortranBase.__init__,
+        # after the inherited accessibility was stored and before any child is constructed
+        r_ = py.resolve_method("FortranSubmodule", "_initialize")
+        bi = [e for e in astq.trace(py.func("FortranBase.__init__")) if (e.kind == "assign" and e.target == "self.permission") or
+              (e.kind == "call" and call_name(e.node) == "self._initialize")]
+        order_ok = bool(bi) and bi[-1].kind == "call"
+        if r_ is not None and r_[0] == "FortranSubmodule" and order_ok:
+            own = [e for e in astq.trace(r_[1]) if e.kind == "assign" and e.target == "self.permission"]
+            ok = bool(own) and not own[-1].conds and not own[-1].loops and ast.unparse(own[-1].value).replace('"', "'") == "'private'"
+            sub = own
     rep.ob("submodules start private", ok, "", py.nloc(sub[0].node) if sub else py.nloc(cs.fn))
     # contains arm resets the child default for types
     a = cs.arm_by_literal("contains")
     aev = astq.trace_block(a.body, cs.fn, res)
     vt, vn = _values(py, cs, aev, child, True), _values(py, cs, aev, child, False)
-    ok = bool(vt) and set(vt) == {"'public'"} and set(vn) <= {"self.permission"}
+    ok = bool(vt) and set(vt) == {"'public'"} and set(vn) <= {"self.permission", child}
     rep.ob("CONTAINS resets the binding default to public in a type", ok,
            "the component default does not leak into the type-bound procedure part" if ok else
            f"at CONTAINS the child default becomes {vt or 'unchanged'} in a type: a bare PRIVATE among the components makes "
@@ -184,7 +195,7 @@ def r2_declaration_attributes(ctx, rep):
     def access_tests(fn):
         """(values, compare node) of membership tests against a constant collection containing public/private"""
         out = []
-        env = py.module_env("sourceform")
+        env = py.local_env(fn, "sourceform")
         for n in ast.walk(fn):
             if isinstance(n, ast.Compare) and len(n.ops) == 1 and isinstance(n.ops[0], ast.In):
                 v = py.eval_const(n.comparators[0], env)
@@ -586,7 +597,7 @@ def r11_entity_name_is_cut_at_every_suffix(ctx, rep):
             take(cenv[n.attr])
     # only what takes part in cutting the name: the function must assign both self.name and self.dimension from the name
     cuts = [a for a in ast.walk(fn) if isinstance(a, ast.Assign) and any(ast.unparse(t) == "self.dimension" for t in a.targets)
-            and "name" in ast.unparse(a.value)]
+            and any("name" in ast.unparse(x) for x in astq.expand_locals(a.value, fn))]
     if not cuts:
         raise AnalysisError("FortranVariable.__init__: the split of the declared name into name and dimension was not found")
     need = {"(", "[", "*"}
